@@ -1,5 +1,6 @@
 """C18 — legacy reply parsers agree with the record API and respect caller limits (structural clauses)."""
 from lib import *  # noqa
+import termrules
 import order
 import ownrules
 from order import nocast, key
@@ -140,6 +141,12 @@ def r_shape(prog, R):
             r.ok(k, f.loc(c["ln"]))
         else:
             r.viol(k, name, f.loc(c["ln"]), "%s parses %s/%s (%d calls) instead of the caller's buffer and length once" % (name, render(a0), render(a1), len(cs)))
+        k2 = "%s: whole message decoded (parse flags 0)" % name
+        fl = call_arg(c, 2)
+        if const_val(fl) == 0:
+            r.ok(k2, f.loc(c["ln"]), nontrivial=False)
+        else:
+            r.viol(k2, name, f.loc(c["ln"]), "%s parses with flags %s: sections kept raw are not decoded, so a message whose authority/additional RDATA is malformed is accepted here while the record parser (flags 0) rejects it" % (name, render(fl)[:80]))
         # negative length refused before the parse, in the wrapper or the implementation
         neg = False
         for g in {pub, f}:
@@ -437,5 +444,7 @@ def run(prog, R, tier):
     r_free(prog, R)
     r_keys(prog, R)
     r_fullscan(prog, R)
+    # the hostent arrays the ns/ptr/a/aaaa parsers hand out: terminator slot reserved, filled without gaps (answer order, complete release)
+    termrules.term_rule(prog, R, "R-C18-TERM", floor=4)
     files = {f.file for f in prog.funcs.values() if f.file.startswith("src/lib/legacy/")} | {"src/lib/ares_addrinfo2hostent.c", "src/lib/ares_data.c"}
     ownrules.own_rule(prog, R, "R-C18-OWN", files, floor=10, include_contract=False)
